@@ -24,7 +24,7 @@ def _fn(name, *sorts):
 class Field(object):
     """description of one field of an element kind.
     kind: ('bytesn', k) | ('bytes',) | ('int',) | ('str',) | ('opt', Field) | ('const', value) | ('none',)
-          | ('seq', ElemKind)"""
+          | ('seq', ElemKind) | ('obj', class, {field name: Field})"""
 
     def __init__(self, kind, where="slot"):
         self.kind = kind
@@ -63,6 +63,16 @@ class ElemKind(object):
             return SInt(_fn(base, REF, z3.IntSort())(r))
         if k[0] == "str":
             return SStr(_fn(base, REF, STR)(r))
+        if k[0] == "obj":
+            # a nested object (e.g. the header of a queued message): its own fields are field functions of r too
+            sub = SObj(k[1], has_dict=ctx.has_instance_dict(k[1]))
+            for sf, sfld in k[2].items():
+                v = self.field_value(ctx, r, sname, "%s.%s" % (fname, sf), sfld, assume)
+                if sfld.where == "slot":
+                    sub.slots[sf] = v
+                else:
+                    sub.idict[sf] = v
+            return sub
         if k[0] == "seq":
             # a nested list of objects (e.g. the AVPs of a ghost wire message): Seq(Ref)-valued field function
             return SSeq(_fn(base, REF, RSEQ)(r), k[1], ("var",))
@@ -170,6 +180,11 @@ class ElemKind(object):
             ctx.assume_raw(_fn(base, REF, z3.IntSort())(r) == int_term(cur))
         elif k[0] == "str":
             ctx.assume_raw(_fn(base, REF, STR)(r) == str_term(cur))
+        elif k[0] == "obj":
+            for sf, sfld in k[2].items():
+                sidk = cur.idict.known if isinstance(cur.idict, SymDict) else (cur.idict or {})
+                scur = cur.slots.get(sf) if sfld.where == "slot" else sidk.get(sf)
+                self._tie(ctx, r, sname, "%s.%s" % (fname, sf), sfld, scur)
         elif k[0] == "seq":
             if not isinstance(cur, SSeq):
                 cur = to_sseq(ctx, list(cur), k[1])
